@@ -3611,7 +3611,11 @@ class sptensor:
         Xnt = self.to_sptenmat(np.array([final_dim]), cdims_cyclic="t")
 
         # Convert to sparse matrix and do multiplication; generally result is sparse
-        Z = Xnt.double().dot(matrices.transpose())
+        # (as real numbers: integer, boolean or single precision values must not
+        # wrap around or saturate in the sums of products)
+        Z = as_float_if_needed(Xnt.double()).dot(
+            as_float_if_needed(matrices).transpose()
+        )
 
         # Rearrange back into sparse tensor of correct shape
         Ynt = ttb.sptenmat.from_array(Z, Xnt.rdims, Xnt.cdims, tuple(siz)).to_sptensor()
